@@ -13,7 +13,7 @@ META = dict(
               "queried through LocationStack for every location; every option value of a token grammar set through a "
               "Stack, saved and read back by a fresh store; recorded results judged by the TLA+ laws",
     level_text="Exhaustive over bounded inputs: all sets of <= 2 (thorough 3) sections with distinct names over paths of "
-               "<= 2 components of {a b * a*} with and without ignore_parents, all pairs of sections over all option "
+               "<= 2 components of {a b * a* a*b*} with ignore_parents absent / true / false, all pairs of sections over all option "
                "kinds and policies, each against all 39 locations of <= 3 components of {a b ab}; all values of <= 3 "
                "(thorough 4) tokens over {a \" ' , # = space newline e-acute backslash}. Section selection is a pure "
                "function of (file, location) and the round trip a pure function of the value, so small-scope "
@@ -25,16 +25,25 @@ META = dict(
 )
 
 ALL_KINDS = '{"none", "plain", "append", "relpath", "basename"}'
+SEGS4 = '{"a", "b", "*", "a*"}'
 LOC_FAMILIES = {
-    # matching / order / ignore_parents;  option kinds and policies with trailing-slash names
-    "quick": [dict(MaxSeg=2, MaxSecs=2, LocMaxSeg=2, Kinds='{"none", "plain"}', Igns='{"absent", "true"}', Trails="{FALSE}"),
-              dict(MaxSeg=1, MaxSecs=2, LocMaxSeg=3, Kinds=ALL_KINDS, Igns='{"absent"}', Trails="{FALSE, TRUE}")],
-    "thorough": [dict(MaxSeg=2, MaxSecs=3, LocMaxSeg=3, Kinds='{"plain"}', Igns='{"absent", "true"}', Trails="{FALSE}"),
-                 dict(MaxSeg=2, MaxSecs=2, LocMaxSeg=3, Kinds='{"none", "plain"}', Igns='{"absent", "true", "false"}',
+    # 1 matching / order / ignore_parents (absent, true, false);  2 option kinds and policies, trailing-slash names;
+    # 3 names whose string length disagrees with their number of components
+    "quick": [dict(Segs='{"a", "*", "a*"}', MaxSeg=2, MaxSecs=2, LocMaxSeg=2, Kinds='{"none", "plain"}',
+                   Igns='{"absent", "true", "false"}', Trails="{FALSE}"),
+              dict(Segs=SEGS4, MaxSeg=1, MaxSecs=2, LocMaxSeg=3, Kinds=ALL_KINDS, Igns='{"absent"}', Trails="{FALSE, TRUE}"),
+              dict(Segs='{"a", "*", "a*b*"}', MaxSeg=2, MaxSecs=2, LocMaxSeg=3, Kinds='{"plain", "append"}',
+                   Igns='{"absent"}', Trails="{FALSE}")],
+    "thorough": [dict(Segs=SEGS4, MaxSeg=2, MaxSecs=3, LocMaxSeg=3, Kinds='{"plain"}', Igns='{"absent", "true"}',
                       Trails="{FALSE}"),
-                 dict(MaxSeg=1, MaxSecs=2, LocMaxSeg=3, Kinds=ALL_KINDS, Igns='{"absent", "true"}', Trails="{FALSE, TRUE}"),
-                 dict(MaxSeg=2, MaxSecs=2, LocMaxSeg=3, Kinds='{"plain", "append", "relpath", "basename"}',
-                      Igns='{"absent"}', Trails="{FALSE}")],
+                 dict(Segs=SEGS4, MaxSeg=2, MaxSecs=2, LocMaxSeg=3, Kinds='{"none", "plain"}',
+                      Igns='{"absent", "true", "false"}', Trails="{FALSE}"),
+                 dict(Segs=SEGS4, MaxSeg=1, MaxSecs=2, LocMaxSeg=3, Kinds=ALL_KINDS, Igns='{"absent", "true"}',
+                      Trails="{FALSE, TRUE}"),
+                 dict(Segs=SEGS4, MaxSeg=2, MaxSecs=2, LocMaxSeg=3, Kinds='{"plain", "append", "relpath", "basename"}',
+                      Igns='{"absent"}', Trails="{FALSE}"),
+                 dict(Segs='{"a", "b", "*", "a*", "a*b*"}', MaxSeg=2, MaxSecs=2, LocMaxSeg=3, Kinds='{"plain", "append"}',
+                      Igns='{"absent", "false"}', Trails="{FALSE}")],
 }
 TOK = {"a": "a", "dq": '"', "sq": "'", "comma": ",", "hash": "#", "eq": "=", "sp": " ", "nl": "\n",
        "eacute": "é", "bs": "\\"}
@@ -228,7 +237,7 @@ def run(ctx):
             if drift and not failed:
                 ctx.drift("value differs from the implementation-shaped prediction for %r: %s" % (conf, diff), row)
     # ---- value round trip
-    consts = dict(base, Family='"val"', MaxSeg=1, MaxSecs=1, LocMaxSeg=1, Kinds='{"plain"}', Igns='{"absent"}', Trails="{FALSE}",
+    consts = dict(base, Family='"val"', Segs='{"a"}', MaxSeg=1, MaxSecs=1, LocMaxSeg=1, Kinds='{"plain"}', Igns='{"absent"}', Trails="{FALSE}",
                   MaxVal=3 if ctx.quick else 4)
     data = table.generate(ctx, "ConfigLocGen", consts, witnesses=("WitnessAll",), timeout=1500,
                           label="ConfigLocGen values")
